@@ -32,7 +32,7 @@ META = {
     "bounds": "3 addresses, one event from an arbitrary Inv state; failure count and clocks unbounded integers (E2: 2^k exact to k=12, "
               "abstract beyond, where the 30-minute cap applies anyway); peer file with 0/1/99/100/101 existing rows",
     "outside": "real sockets and the selector (replaced by a recording shell); sequences are covered by the one-step invariant",
-    "stubs": ["node shell: recording selector, fake sockets, fixed nonce/clock", "in-memory file system for peers.json"],
+    "stubs": ["node shell: recording selector, fake sockets, fixed nonce/clock", "in-memory file system for peers.json (write-through and buffered-until-close)"],
     "assumptions": ["Inv holds initially (both maps start disjoint: connected is empty at start-up)"],
 }
 
@@ -329,66 +329,7 @@ def self_connection(twin: bool = False, real: bool = False):
 # ------------------------------------------------------------------------------------------------ d
 
 
-class Crash(Exception):
-    pass
-
-
-class MemFS:
-    """name -> text; open(..,'w') truncates at open, writes append, replace is atomic; a crash is an exception injected
-    before file operation number `crash_at` (operations: open, every write, close, replace, remove)."""
-
-    def __init__(self, files: Dict[str, str], crash_at: int):
-        self.files = dict(files)
-        self.crash_at = crash_at
-        self.ops = 0
-        self.trace: List[str] = []
-
-    def _op(self, name: str) -> None:
-        if self.ops == self.crash_at:
-            raise Crash(name)
-        self.ops += 1
-        self.trace.append(name)
-
-    def open(self, name: str, mode: str = "r"):
-        fs = self
-
-        class F:
-            def __init__(s):
-                if "w" in mode:
-                    fs._op("open-w " + name)
-                    fs.files[name] = ""
-                elif name not in fs.files:
-                    raise FileNotFoundError(name)
-
-            def read(s):
-                return fs.files[name]
-
-            def write(s, text):
-                fs._op("write " + name)
-                fs.files[name] = fs.files[name] + text
-                return len(text)
-
-            def close(s):
-                pass
-
-            def __enter__(s):
-                return s
-
-            def __exit__(s, *a):
-                return False
-        return F()
-
-    # os / os.path surface
-    def replace(self, a: str, b: str) -> None:
-        self._op("replace")
-        self.files[b] = self.files.pop(a)
-
-    def remove(self, a: str) -> None:
-        self._op("remove")
-        del self.files[a]
-
-    def isfile(self, a: str) -> bool:
-        return a in self.files
+from symlib.stubs.fs import MemFS, Crash, patched  # noqa: E402
 
 
 def peer_file(nrows: int, maxlen: int = 100, crash: bool = True, twin: bool = False, real: bool = False):
@@ -404,29 +345,13 @@ def peer_file(nrows: int, maxlen: int = 100, crash: bool = True, twin: bool = Fa
 
     # number of file operations of a crash-free run (dry run), to place the crash windows
     def _total_ops() -> int:
-        fs0 = MemFS({"peers.json": json.dumps(rows(nrows), indent=4)} if nrows > 0 else {}, -1)
-
-        class P0:
-            isfile = staticmethod(fs0.isfile)
-
-        class O0:
-            replace = staticmethod(fs0.replace)
-            remove = staticmethod(fs0.remove)
-            path = P0
-        sv = (getattr(di, "open", None), di.os)
-        di.open, di.os = fs0.open, O0
-        try:
+        fs0 = MemFS({"peers.json": json.dumps(rows(nrows), indent=4)} if nrows > 0 else {}, -1, True)
+        with patched(di, fs0):
             di.DiskInterface().write_peers(rpm.RemotePeer("10.9.9.9", 2412, OUT, None, 0))
-        finally:
-            di.os = sv[1]
-            if sv[0] is None:
-                del di.open
-            else:
-                di.open = sv[0]
         return fs0.ops
     TOTAL = _total_ops()
 
-    def check_peer_file(crash_at: int, same_as: int) -> bool:
+    def check_peer_file(crash_at: int, same_as: int, eager: bool = True) -> bool:
         """
         post: _
         """
@@ -445,31 +370,15 @@ def peer_file(nrows: int, maxlen: int = 100, crash: bool = True, twin: bool = Fa
             return True
         peer = rpm.RemotePeer("10.9.9.9" if idx is None else old[idx][0], 2412, OUT, None, 0)
         old_text = json.dumps(old, indent=4)
-        fs = MemFS({"peers.json": old_text} if nrows > 0 else {}, crash_at)
-
-        class FakePath:
-            isfile = staticmethod(fs.isfile)
-
-        class FakeOs:
-            replace = staticmethod(fs.replace)
-            remove = staticmethod(fs.remove)
-            path = FakePath
-        saved = (getattr(di, "open", None), di.os)
-        di.open = fs.open
-        di.os = FakeOs
+        fs = MemFS({"peers.json": old_text} if nrows > 0 else {}, crash_at, eager)
         crashed = False
-        try:
-            di.DiskInterface().write_peers(peer)
-        except Crash:
-            crashed = True
-        except Exception:
-            return False
-        finally:
-            di.os = saved[1]
-            if saved[0] is None:
-                del di.open
-            else:
-                di.open = saved[0]
+        with patched(di, fs):
+            try:
+                di.DiskInterface().write_peers(peer)
+            except Crash:
+                crashed = True
+            except Exception:
+                return False
         if twin:
             return not crashed
         cur = fs.files.get("peers.json")
@@ -495,7 +404,7 @@ def peer_file(nrows: int, maxlen: int = 100, crash: bool = True, twin: bool = Fa
             return False
         return got[0][0:3] == [peer.host, peer.port, peer.direction] and len(got) == min(LIMIT, len(expect) + 1)
 
-    return check_peer_file, {"crash_at": TOTAL + 1, "same_as": -1}
+    return check_peer_file, {"crash_at": TOTAL + 1, "same_as": -1, "eager": True}
 
 
 def obligations(tier: str, known: List[str]) -> List[Ob]:
